@@ -193,7 +193,9 @@ def run_unit(unit_path, repo, verif_root, build_root, do_twin=True, rlimit=None)
         return res
     res["extraction"] = report
     res["extracted_fns"] = [ex["path"][-1].split()[-1] for ex in unit.get("extract", [])
-                            if ex.get("kind", "fn") == "fn"]
+                            if ex.get("kind", "fn") == "fn"] + list(unit.get("_default_contract_fns", []))
+    res["default_contract_fns"] = list(unit.get("_default_contract_fns", []))
+    res["has_impl_all"] = bool(unit.get("impl_all"))
     gen_path = os.path.join(bdir, name + ".rs")
     open(gen_path, "w", encoding="utf-8").write(gen_text)
     res["generated"] = gen_path
